@@ -61,6 +61,9 @@ def fault_catalogue():
         "sigsegv": {"behaviour": "sigsegv", "reply": VALID_REPLY},
         "sigterm": {"behaviour": "sigterm", "reply": VALID_REPLY},
         "killed-mid-reply": {"behaviour": "killmid", "reply": VALID_REPLY},
+        "sigkill-after-complete-reply": {"behaviour": "replykill", "reply": VALID_REPLY},
+        "sigsegv-after-complete-reply": {"behaviour": "replysegv", "reply": VALID_REPLY},
+        "sigterm-after-complete-reply": {"behaviour": "replyterm", "reply": VALID_REPLY},
         "stderr-exit0": {"behaviour": "stderr", "reply": VALID_REPLY},
         "stderr-binary": {"behaviour": "stderrbin", "reply": VALID_REPLY},
         "no-read-fail": {"behaviour": "noreadfail", "reply": b""},
